@@ -8,6 +8,18 @@ mod driver;
 mod known;
 
 fn main() {
+    // `vl-gen buildscript-child <helper> <out dir> <definition file>`: what a build.rs does
+    let raw: Vec<String> = std::env::args().collect();
+    if raw.get(1).map(|s| s.as_str()) == Some("buildscript-child") {
+        let (helper, out_dir, file) = (raw[2].as_str(), raw[3].as_str(), raw[4].as_str());
+        std::env::set_var("OUT_DIR", out_dir);
+        match helper {
+            "cargo_build" => varlink_generator::cargo_build(file),
+            "cargo_build_many" => varlink_generator::cargo_build_many(&[file]),
+            _ => varlink_generator::cargo_build_tosource(file, false),
+        }
+        std::process::exit(0);
+    }
     let args = parse_args();
     std::panic::set_hook(Box::new(|_| {}));
     match args.id.as_str() {
